@@ -431,6 +431,25 @@ from_str_fields!(ts_from_str_fields_3, "7-8-9", few);
 from_str_fields!(ts_from_str_fields_4, "7-8-9-1", full);
 from_str_fields!(ts_from_str_fields_5, "7-8-9-1-2", full);
 
+/// C10 "printing then parsing is the identity": Display and the REAL integer parsers executed on concrete boundary values
+/// (core::fmt and str searching are outside CBMC's reach for symbolic values). Class B: a grid of field values, one harness per point.
+macro_rules! print_parse {
+    ($name:ident, $secs:expr, $frac:expr, $counter:expr, $node:expr) => {
+        #[kani::proof]
+        #[kani::unwind(40)]
+        fn $name() {
+            let x = HLCTimestamp::new(dur($secs, $frac), $counter, $node);
+            let text = x.to_string();
+            let r = HLCTimestamp::from_str(&text);
+            assert!(matches!(r, Ok(y) if y == x), "printing then parsing is the identity");
+        }
+    };
+}
+print_parse!(ts_print_parse_0, 0, 0, 0, 0);
+print_parse!(ts_print_parse_1, 4294967295, 249, 0xFFFF, 255);
+print_parse!(ts_print_parse_2, 1, 7, 0x00A0, 9);
+print_parse!(ts_print_parse_3, 1234567890, 100, 0x0ABC, 10);
+
 // native replay of Kani counterexamples (tools/replay.py writes the file)
 #[cfg(verif_replay)]
 include!("/verif/build/timestamp/replay_tests.rs");
